@@ -95,6 +95,7 @@ type reqSpec struct {
 	Key      string `json:"key"`
 	Digest   string `json:"digest"`
 	Filename string `json:"filename"`
+	SigType  string `json:"sigtype,omitempty"` // "" = ps; "pgp": detached PGP signature (keys that have both certificates)
 }
 
 type result struct {
@@ -192,6 +193,9 @@ func doSign(spec reqSpec, auditPath string) result {
 	v.Set("key", spec.Key)
 	v.Set("filename", spec.Filename)
 	sigtype := "ps"
+	if spec.SigType != "" {
+		sigtype = spec.SigType
+	}
 	if spec.Kind == "bad-type" {
 		sigtype = "no-such-type"
 	}
@@ -247,6 +251,13 @@ func TestC06_ServerHistories(t *testing.T) {
 			}
 			if kind == "ok" || kind == "alias" {
 				s.Digest = rapid.SampledFrom([]string{"", "sha1", "sha256", "sha512"}).Draw(t, "digest")
+			}
+			if kind == "ok" && env.Pgp[s.Key] != nil && rapid.IntRange(0, 2).Draw(t, "pgp") == 0 {
+				// the key has an X.509 and a PGP certificate: the record names the one used
+				s.SigType = "pgp"
+				if s.Digest == "sha1" {
+					s.Digest = "sha256" // the OpenPGP library refuses to make SHA-1 signatures
+				}
 			}
 			specs = append(specs, s)
 		}
@@ -306,6 +317,11 @@ func TestC06_ServerHistories(t *testing.T) {
 				wantHash := map[string]string{"": "SHA-256", "sha1": "SHA1", "sha256": "SHA-256", "sha512": "SHA-512"}[r.spec.Digest]
 				fp := fmt.Sprintf("%x", sha1.Sum(env.Leaf[wantKey].Raw))
 				checks := map[string]any{"sig.keyname": wantKey, "sig.type": "ps", "sig.hash": wantHash, "sig.x509.fingerprint": fp, "client.name": clients[r.spec.Client%len(clients)].name, "client.ip": "127.0.0.1", "client.filename": r.spec.Filename}
+				if r.spec.SigType == "pgp" {
+					checks["sig.type"] = "pgp"
+					delete(checks, "sig.x509.fingerprint") // naming the X.509 certificate as well is not wrong
+					checks["sig.pgp.fingerprint"] = fmt.Sprintf("%x", env.Pgp[wantKey].PrimaryKey.Fingerprint[:])
+				}
 				for k, want := range checks {
 					if a[k] != want {
 						failf("audit record of %s has %s=%v, want %v (record %v)", r.spec.Filename, k, a[k], want, a)
